@@ -289,7 +289,13 @@ def run_shard(spec, ctx):
     i, of = spec['shard'], spec['of']
     n = NSCEN[ctx.tier] // of
     for j in range(n):
-        scenario(ctx, ctx.rng(j), j)
+        # a quarter of the scenarios live in a process configured with every
+        # register export off (functions.flags[1..9] = False): locks and
+        # builders work on the stack, not on the registers
+        off = j % 4 == 1
+        ctx.tab('registers', 'off' if off else 'default')
+        with env.global_flags(env.REGISTERS_OFF if off else {}):
+            scenario(ctx, ctx.rng(j), j)
     env.Clock.now = env.NOW0
 
 
